@@ -69,6 +69,15 @@ func allOfMembers(cfg gen.Config) []member {
 		out = append(out, member{name: "allOf: a composition tightens properties of its referenced base; the base is also used on its own", cfg: cfg,
 			root: obj(&fam.Prop{Label: "comp", Spec: comp, Required: true}, &fam.Prop{Label: "plain", Spec: shared})})
 	}
+	// a branch without a "type" keyword FIRST (properties only / required only), followed by a typed or referenced object branch
+	{
+		untyped := obj(&fam.Prop{Label: "u", Spec: str("minLength"), Required: true})
+		untyped.NoType = true
+		wrap("untyped branch first", &fam.Spec{Kind: "object", AllOf: []*fam.Spec{untyped, obj(&fam.Prop{Label: "v", Spec: &fam.Spec{Kind: "integer", Kw: []string{"maximum"}}, Required: true})}})
+		base2 := obj(&fam.Prop{Label: "note", Spec: str("minLength")}, &fam.Prop{Label: "id", Spec: &fam.Spec{Kind: "integer"}, Required: true})
+		base2.Ref = "$defs"
+		wrap("required-only branch first, then a referenced branch", &fam.Spec{Kind: "object", AllOf: []*fam.Spec{{Kind: "any", ReqOnly: []string{"note"}}, base2}})
+	}
 	// three and four branches
 	for n := 3; n <= 4; n++ {
 		var bs []*fam.Spec
